@@ -114,6 +114,8 @@ def gen_dprogram(rng, with_order2=False, maxmix=5, plain=("spoil", "wait", "pd",
         elif k == "shift":
             p["ops"].append({"op": "shift", "d": rng.choice([1, 1, 2, -1, -2, 3]), "nmax": rng.choice([None, None, None, 2])})
         else:
+            if not plain:
+                continue
             pk = rng.choice(list(plain))
             if pk == "pd":
                 p["ops"].append({"op": "pd", "p": float(rng.choice([0.5, 1, 2])), "reset": False})
@@ -153,14 +155,23 @@ def snap_d(sm):
     return prog.snapshot(sm), o1, o2
 
 
-def run_impl_d(p):
+def run_impl_d(p, inplace=True):
+    """inplace=True: as simulate() does, snapshot after every operator.
+    inplace=False: manual stepping, keeping EVERY intermediate state matrix and taking all snapshots only
+    at the end -- an operator that touches its input's partials is then visible in the earlier snapshots"""
     import epgpy as epg
     sm = epg.StateMatrix(density=p["pd"])
-    out = []
+    if inplace:
+        out = []
+        for o in p["ops"]:
+            sm = build(o)(sm, inplace=True)
+            out.append(snap_d(sm))
+        return out
+    kept = []
     for o in p["ops"]:
-        sm = build(o)(sm, inplace=True)
-        out.append(snap_d(sm))
-    return out
+        sm = build(o)(sm)
+        kept.append(sm)
+    return [snap_d(x) for x in kept]
 
 
 # ------------------------------------------------------------------ Gallina
